@@ -12,6 +12,7 @@ Quick: seeded sample of the grid; thorough: the whole grid.
 from __future__ import annotations
 
 import json
+import os
 import math
 import warnings
 
@@ -805,6 +806,20 @@ def xray3d_checks(ctx, lean, oracle, name, c, op, R, case, tol):
     from scico.linop.xray import XRayTransform3D
 
     sh, det = c["shape"], c["det_shape"]
+    if "matrices" not in c:
+        # matrices_from_euler_angles: the assembly of the model (eulerM / eulerT, C04_xray3d_euler_centre) around scipy's rotation
+        from scipy.spatial.transform import Rotation
+
+        vs = [1.0] * 3 if c["voxel_spacing"] is None else list(c["voxel_spacing"])
+        ds = [1.0] * 2 if c["det_spacing"] is None else list(c["det_spacing"])
+        Rs = Rotation.from_euler(c["seq"], np.asarray(c["angles"], dtype=float)).as_matrix()
+        for v, Rv in enumerate(Rs):
+            got = np.array(b2fs(lean.m.call("euler", R=[_blk(Rv[:2, :])], vs=fs2b(vs), ds=fs2b(ds), half_in=fs2b(np.asarray(sh) / 2), half_out=fs2b(np.asarray(det) / 2)))).reshape(2, 4)
+            ctx.count("xray3d-euler-assembly")
+            if not _close(np.asarray(op.matrices[v], dtype=np.float64), got, 1e-9):
+                ctx.disagree("linops.XRayTransform3D.euler", dict(case, view=v), _summ(np.asarray(op.matrices[v])), _summ(got), oracle=oracle,
+                             note="projection matrix built by matrices_from_euler_angles differs from M = diag(1/ds) R diag(vs), t = -M in/2 + out/2")
+                return False
     le = linops_ref.xray3d_left_edges(c)  # (views, voxels, 2)
     dist = np.abs(le - np.round(le))
     int_edge = bool(np.any(dist < 1e-9))
@@ -1066,6 +1081,35 @@ def correspond(ctx, model):
             check_config(ctx, lean, oracle, name, c, op)
     ctx.extra["grid"] = {"classes": len(sizes), "configs_per_class": sizes, "whole_grid": bool(ctx.thorough)}
     malformed(ctx, lean)
+    default_precision_stream(ctx)
+
+
+def default_precision_stream(ctx):
+    """the library's DEFAULT mode (no jax_enable_x64; float32 / complex64 data): a worker subprocess builds a sample of the
+    grid, evaluates every operator and its adjoint once and compares the evaluation with the documented map at relative
+    tolerance 1e-4 — "never fails for a conforming input" in default precision"""
+    import subprocess
+    import sys
+
+    import opgrid
+
+    k = 6 if ctx.thorough else 2
+    items = []
+    for name in opgrid.CLASSES:
+        g = [c for c in opgrid.grid(name, ctx.rng) if not (classify(name, c) is not None and ctx.is_known(classify(name, c)))]
+        sel = ctx.rng.choice(len(g), size=min(k, len(g)), replace=False)
+        items += [[name, g[int(i)]] for i in sorted(sel.tolist())]
+    p = subprocess.run([sys.executable, str(common.VERIF / "harness" / "linops_f32_worker.py")], input=json.dumps({"repo": str(common.REPO), "items": items, "seed": ctx.seed}),
+                       capture_output=True, text=True, env={k_: v for k_, v in os.environ.items() if k_ != "JAX_ENABLE_X64"})
+    if p.returncode != 0:
+        raise common.Infra("default-precision worker failed: " + p.stderr[-800:])
+    for rec in json.loads(p.stdout)["results"]:
+        ctx.case({"default_precision": rec["class"], "config": rec["config"]}, "f32:" + rec["class"] + ":" + json.dumps(rec["config"], sort_keys=True))
+        ctx.count("default-precision-operator")
+        if rec.get("raised") or not rec.get("eval_ok") or not rec.get("adj_ok"):
+            ctx.disagree(f"linops.{rec['class']}.default_precision", {"class": rec["class"], "config": rec["config"], "mode": "float32 (jax_enable_x64 off)"},
+                         {k_: v for k_, v in rec.items() if k_ not in ("class", "config")}, "evaluates, adjoint evaluates, equals the documented map within 1e-4",
+                         oracle=lambda case, rec=rec: dict(rec, mode="float32 (jax_enable_x64 off)"))
 
 
 def malformed(ctx, lean):
@@ -1207,6 +1251,11 @@ def search(ctx, model, why):
     import opgrid
 
     oracle = make_oracle(rng_seed=ctx.seed + 99)
+    if why is not None:
+        # a generated obligation is broken: first exercise exactly the functions whose table rows differ
+        r = targeted_panel(ctx, oracle)
+        if r is not None:
+            return r
     for name, c, op in opgrid.iter_configs(ctx.rng, False, on_error="yield", per_class=4):
         if classify(name, c) is not None and ctx.is_known(classify(name, c)):
             continue
@@ -1231,6 +1280,94 @@ def search(ctx, model, why):
             return r
         if k % 60 == 59:
             jax.clear_caches()
+    return None
+
+
+# helper functions / option keys of the tables -> operator classes of the grid that exercise them
+_ROW_CLASSES = {
+    "normalize_axes": ["FiniteDifference", "FiniteSum", "HaarTransform"], "linop_over_axes": ["FiniteDifference", "FiniteSum"],
+    "_linear_pad": ["Pad"], "linop_from_function": ["Pad", "Sum", "Transpose", "Reshape", "linop_from_function"], "pad": ["Pad"],
+    "fd": ["SingleAxisFiniteDifference", "FiniteDifference"], "optics": ["AngularSpectrumPropagator", "FresnelPropagator", "FraunhoferPropagator"],
+    "radial_transverse_frequency": ["AngularSpectrumPropagator", "FresnelPropagator"], "Propagator": ["AngularSpectrumPropagator", "FresnelPropagator"],
+    "slice_length": ["Slice"], "indexed_shape": ["Slice"], "BiConvolve": ["Convolve", "ConvolveByX"],
+}
+
+
+def _table_rows(path):
+    import re
+
+    return set(re.findall(r'^\s*\((".*)\),?\s*$', path.read_text(), re.M))
+
+
+def _row_strings(row):
+    import re
+
+    return [m.replace('\\"', '"') for m in re.findall(r'"((?:[^"\\]|\\.)*)"', row)]
+
+
+def targeted_panel(ctx, oracle, limit=80):
+    """rows of the generated tables that differ from the hand-written ones -> (a) for a changed DEFAULT: operators built
+    with that argument OMITTED (so that the source's default acts) against the reference for the pinned default; (b) for
+    any other row (option sets, constants, guards, attributes): the grid configurations of the classes that use the
+    function.  Returns a failing input or None."""
+    import ast as _ast
+    import importlib
+
+    import jax
+
+    import opgrid
+
+    gen = _table_rows(common.LEAN_DIR / "Scico" / "Generated" / "LinOpsTables.lean")
+    hand = _table_rows(common.LEAN_DIR / "Scico" / "Proofs" / "LinOpsTables.lean")
+    diff = [(_row_strings(r), r in hand) for r in sorted(gen ^ hand)]
+    diff = [(st, pinned) for st, pinned in diff if st]
+    ctx.extra["generated_rows_differing"] = [st for st, _ in diff][:20]
+    classes, omit = [], []
+    for st, pinned in diff:
+        head = st[0].split(".")[0]
+        cl = _ROW_CLASSES.get(head, _ROW_CLASSES.get(st[0].split(".")[-1] if "." in st[0] else st[0], [head]))
+        for k in cl:
+            if k in opgrid.CLASSES and k not in classes:
+                classes.append(k)
+        if pinned and len(st) == 3 and st[0].endswith("__init__"):  # a pinned default (function, argument, value) that the source no longer has
+            try:
+                omit.append((head, st[1], _ast.literal_eval(st[2])))
+            except Exception:  # noqa: BLE001  (dtype / non-literal defaults are not behaviour of the map)
+                pass
+    mods = ["scico.linop", "scico.linop.xray", "scico.linop.optics", "scico.linop.abel", "scico.functional._tvnorm"]
+    rng = np.random.Generator(np.random.PCG64(ctx.seed + 7))
+    n = 0
+    for cname, arg, val in omit:
+        cls = next((getattr(importlib.import_module(m), cname) for m in mods if hasattr(importlib.import_module(m), cname)), None)
+        if cls is None or cname not in opgrid.CLASSES:
+            continue
+        orig = cls.__init__
+
+        def init(self, *a, _orig=orig, _arg=arg, _val=val, **k):
+            if _arg in k and (k[_arg] == _val if not isinstance(k[_arg], (list, tuple, np.ndarray)) else False):
+                k.pop(_arg)  # let the default of the source act
+            return _orig(self, *a, **k)
+
+        cls.__init__ = init
+        try:
+            for c in opgrid.grid(cname, rng)[:limit]:
+                r = oracle({"class": cname, "config": c})
+                ctx.count("search-targeted-default")
+                n += 1
+                if r is not None:
+                    return dict(r, default_omitted=arg, pinned_default=repr(val))
+        finally:
+            cls.__init__ = orig
+    for cname in classes:
+        for k, c in enumerate(opgrid.grid(cname, rng)[:limit]):
+            if classify(cname, c) is not None and ctx.is_known(classify(cname, c)):
+                continue
+            r = oracle({"class": cname, "config": c})
+            ctx.count("search-targeted-class")
+            if r is not None:
+                return r
+            if k % 60 == 59:
+                jax.clear_caches()
     return None
 
 
